@@ -87,7 +87,9 @@ pub fn key_for(tenant: &str) -> String {
 fn free_port() -> u16 {
     use std::sync::atomic::{AtomicU32, Ordering};
     static NEXT: AtomicU32 = AtomicU32::new(0);
-    let base = 20_000 + (std::process::id() % 220) * 200;
+    // below the kernel's ephemeral range (32768-60999): an outgoing connection of any shard can then
+    // never own (or self-connect to) a port a server wants to bind
+    let base = 10_000 + (std::process::id() % 110) * 200;
     for _ in 0..400 {
         let n = NEXT.fetch_add(1, Ordering::SeqCst) % 200;
         let port = (base + n) as u16;
